@@ -63,5 +63,7 @@ def conditions(tier):
     cs.append(Cond("harness.c09", "interpolate_literal", {"hlen": 1, "vlen": 2, "tlen": 4}, T=600, reach=["substituted"]))
     for s1 in (0, 1):
         cs.append(Cond("harness.stream", "stream_agrees", {"fix": {"s1": s1, "ps": True}}, T=900, reach=["accepted", "rejected"]))
+    cs.append(Cond("harness.stream", "stream_agrees", {"fix": {"s1": 1, "ps": False}, "stop": True}, T=900, reach=["accepted", "rejected"],
+                   label="stream.stream_agrees[stop-at-first-error,s1=1]"))
     cs.append(Cond("harness.c01", "twin_never_accepts", {"text_prefix": "Feature: f\n"}, T=120, expect="cex"))
     return cs
